@@ -15,8 +15,6 @@ Section PassSolve.
   Variables (exp4 log4 : num -> num) (pow4 : num -> num -> num).
   Variables (zero one : num).
   Variable isfin : num -> bool.
-  Hypothesis neg_mul : forall x y, mul (neg x) y = neg (mul x y).
-  Hypothesis neg_div : forall x y, div (neg x) y = neg (div x y).
 
   Notation vals := (vals num).
   Notation eqn := (eqn num).
@@ -24,7 +22,7 @@ Section PassSolve.
   Notation f_pass := (f_pass num add sub mul div neg absf ltb of_int fexp flog fpow round4 exp4 log4 pow4 zero one).
   Notation pass_ok := (pass_ok num add sub mul div neg absf ltb is_nan is_inf of_int fexp flog fpow zero).
   Notation pass_agree := (pass_agree num add sub mul div neg absf ltb is_nan is_inf of_int fexp flog fpow round4 exp4 log4 pow4
-                                     zero one neg_mul neg_div).
+                                     zero one).
   Notation f_pass_shape := (f_pass_shape num add sub mul div neg absf ltb of_int fexp flog fpow round4 exp4 log4 pow4 zero one).
 
   Variables (prog : list eqn) (fm : fmod) (d : mdesc) (o : opts num) (n m : nat) (ec fc : Z) (fl : failmode).
@@ -52,7 +50,7 @@ Section PassSolve.
   Hypothesis Hfe : fm_endo fm = endo_nums d.
   Hypothesis Hfl : fm_lags fm = Z.of_nat (lags d).
   Hypothesis Hfd : fm_leads fm = Z.of_nat (leads d).
-  Hypothesis Hsc : prog_scoped num m (Z.of_nat (lags d)) (Z.of_nat (leads d)) prog.
+  Hypothesis Hsc : prog_scoped num add sub mul div of_int fpow m (Z.of_nat (lags d)) (Z.of_nat (leads d)) prog.
   Hypothesis Hmm : min_iter o <= max_iter o.
   Hypothesis Hec : w_ec (errors o) = Some ec.
   Hypothesis Hfc : w_fc fl = Some fc.
@@ -70,7 +68,7 @@ Section PassSolve.
     { unfold feasible in Hfeas. apply andb_true_iff in Hfeas as [Hf1 Hf2]. split; lia. }
     destruct Hf12 as [Hf1 Hf2].
     apply (run_ok_of_prog num add sub mul div neg absf ltb is_nan is_inf of_int fexp flog fpow round4 exp4 log4 pow4 zero one isfin
-             neg_mul neg_div prog d o (Z.of_nat p) p n m _ Hsc); auto.
+             prog d o (Z.of_nat p) p n m _ Hsc); auto.
     - rewrite (py_pos_nonneg n (Z.of_nat p)) by lia. rewrite Nat2Z.id. reflexivity.
     - cbn [iterv]. apply seeded_shape. exact Hs.
   Qed.
